@@ -9,12 +9,21 @@ use crate::{
 use byteorder::{LittleEndian, ReadBytesExt};
 use std::path::Path;
 
-pub fn get_current_version(folder: &std::path::Path) -> crate::Result<VersionId> {
+/// Reads the ID of the current version and the checksum of its version file.
+pub fn get_current_version(folder: &std::path::Path) -> crate::Result<(VersionId, Checksum)> {
     use byteorder::{LittleEndian, ReadBytesExt};
 
-    std::fs::File::open(folder.join(CURRENT_VERSION_FILE))
-        .and_then(|mut f| f.read_u64::<LittleEndian>())
-        .map_err(Into::into)
+    let mut file = std::fs::File::open(folder.join(CURRENT_VERSION_FILE))?;
+
+    let id = file.read_u64::<LittleEndian>()?;
+    let checksum = file.read_u128::<LittleEndian>()?;
+    let checksum_type = file.read_u8()?;
+
+    if checksum_type != 0 {
+        return Err(crate::Error::InvalidTag(("ChecksumType", checksum_type)));
+    }
+
+    Ok((id, Checksum::from_raw(checksum)))
 }
 
 pub struct RecoveredTable {
@@ -32,15 +41,27 @@ pub struct Recovery {
 }
 
 pub fn recover(folder: &Path) -> crate::Result<Recovery> {
-    let curr_version_id = get_current_version(folder)?;
+    let (curr_version_id, expected_checksum) = get_current_version(folder)?;
     let version_file_path = folder.join(format!("v{curr_version_id}"));
-
-    // TODO: maybe validate current version using the checksum in "current"
 
     log::info!(
         "Recovering current manifest at {}",
         version_file_path.display(),
     );
+
+    // IMPORTANT: Validate the version file using the checksum in "current",
+    // otherwise a corrupted version file may silently yield a different tree
+    {
+        let bytes = std::fs::read(&version_file_path)?;
+        let checksum = Checksum::from_raw(crate::hash::hash128(&bytes));
+
+        checksum.check(expected_checksum).inspect_err(|e| {
+            log::error!(
+                "Checksum mismatch of version file {}: {e:?}",
+                version_file_path.display(),
+            );
+        })?;
+    }
 
     let reader = sfa::Reader::new(&version_file_path)?;
     let toc = reader.toc();
